@@ -27,7 +27,7 @@ func init() {
 	register(&Rule{ID: "C03.admin", Also: []string{"C16"}, AlsoOnly: map[string][]string{"C16": {"stranger-refused"}}, AlsoFloor: map[string]int{"C16": 1}, Floor: 3,
 		Text: "the administrator is never refused: in checkPermission, setMode and setModTime every path that returns false has seen IsAdmin() == false",
 		Run:  c03Admin})
-	register(&Rule{ID: "C03.create", Floor: 3,
+	register(&Rule{ID: "C03.create", Floor: 3, Also: []string{"C11"},
 		Text: "every node constructor of MemFS stores uid and gid taken from the view's current user and a mode of the form type | (perm & mask &^ vfs.UMask()) using the view's own umask",
 		Run:  c03Create})
 }
